@@ -231,6 +231,54 @@ func isSuffix(a, b []string) bool { // a is a suffix of b (root side of a leaf-f
 	return true
 }
 
+// c11RemovesOnly: every sample's location-id list in `after` is a suffix (root side) of the one in
+// `before`, and every location's line list likewise; "" when so.
+func c11RemovesOnly(before, after *profile.Profile) string {
+	if len(before.Sample) != len(after.Sample) {
+		return "sample count"
+	}
+	for i := range before.Sample {
+		var b, a []string
+		for _, l := range before.Sample[i].Location {
+			b = append(b, fmt.Sprint(l.ID))
+		}
+		for _, l := range after.Sample[i].Location {
+			a = append(a, fmt.Sprint(l.ID))
+		}
+		if !isSuffix(a, b) {
+			return fmt.Sprintf("sample %d locations %v -> %v", i, b, a)
+		}
+	}
+	lines := func(l *profile.Location) []string {
+		var out []string
+		for _, ln := range l.Line {
+			var fid uint64
+			if ln.Function != nil {
+				fid = ln.Function.ID
+			}
+			out = append(out, fmt.Sprintf("%d:%d:%d", fid, ln.Line, ln.Column))
+		}
+		return out
+	}
+	bl := map[uint64][]string{}
+	for _, l := range before.Location {
+		bl[l.ID] = lines(l)
+	}
+	if len(before.Location) != len(after.Location) {
+		return "location table size"
+	}
+	for _, l := range after.Location {
+		b, ok := bl[l.ID]
+		if !ok {
+			return fmt.Sprintf("new location id %d", l.ID)
+		}
+		if a := lines(l); !isSuffix(a, b) {
+			return fmt.Sprintf("location %d lines %v -> %v", l.ID, b, a)
+		}
+	}
+	return ""
+}
+
 func c11Compile(cs c11Case, anchoredExpr bool) (drop, keep *regexp.Regexp, ok bool) {
 	wrap := func(s string) string {
 		if anchoredExpr {
@@ -267,6 +315,14 @@ func c11Judge(c *Ctx, e *c11Env, cs c11Case, what string, in, real *profile.Prof
 				c.Violation("C11/"+what+"/sample-became-empty", what+" emptied a sample that had frames", cs)
 				break
 			}
+		}
+	}
+	// theorem prune_removes_only_leaf_side on the real code (unconditional: also in the known-finding
+	// families): location lists and line lists only lose elements on the leaf side
+	if what != "prune_from" && !oracleFailed {
+		if msg := c11RemovesOnly(in, real); msg != "" {
+			oracleFailed = true
+			c.Violation("C11/"+what+"/not-a-root-side-suffix", what+" did more than remove leaf-side locations/lines: "+msg, cs)
 		}
 	}
 	if spec, ok := splitViews(specS); !ok {
